@@ -167,7 +167,7 @@ def _r3_piece(piece):
 # ------------------------------------------------------------------ tokeniser
 
 def make_tokeniser(cfg):
-    return Tokeniser(num_tracks=cfg["ntracks"], pitch_range=tuple(cfg["pitch_range"]),
+    return Tokeniser(ppqn=cfg.get("ppqn"), num_tracks=cfg["ntracks"], pitch_range=tuple(cfg["pitch_range"]),
                      step_sizes=list(cfg["step_sizes"]) if cfg.get("step_sizes") else None,
                      time_signature_range=tuple(cfg.get("ts_range", (2, 16))),
                      note_values=list(cfg["note_values"]) if cfg.get("note_values") else None,
@@ -506,7 +506,7 @@ def gen_cfg(rng):
     step_sizes, grids = rng.choice([(None, None), (None, None), (None, None), ([6, 12, 24], [6, 12]), ([2, 4, 8, 16], None),
                                     ([2, 6, 24], None), ([12, 24], [12])])
     return {"ntracks": ntracks, "pitch_range": [lo, hi], "note_values": values, "step_sizes": step_sizes, "grids": grids,
-            "ts_range": rng.choice([(2, 16), (2, 16), (1, 24), (2, 14)]),
+            "ts_range": rng.choice([(2, 16), (2, 16), (1, 24), (2, 14)]), "ppqn": rng.choice([None, None, 24]),
             "velocity_bins": 1 if rng.random() < 0.7 else rng.choice([2, 4, 8]),
             "flags": [rng.random() < 0.6, rng.random() < 0.5, rng.random() < 0.5, rng.random() < 0.5, rng.random() < 0.7],
             "insert_bar_token": rng.random() < 0.85}
@@ -701,6 +701,7 @@ def _simplify(trace):
 
 
 class C03Engine:
+    ESSENTIAL = ["reach_judged/streams_by_interpreter"]
     name = "tokstream/C03"
     RULE = ("one run = one seeded schedule: 1-3 (thorough: up to 4) stream clients, each with a generated piece (1-6 bars, thorough "
             "up to 10; 1-4 tracks; per-bar signatures from a small per-piece palette so that signatures recur; literally repeated bars; "
